@@ -207,6 +207,22 @@ CLAIMED = {
         technique="contract-based deductive verification: closed-flag invariant through frame obligations, ghost "
                   "call traces; cvc + pyvc",
     ),
+    'C06': dict(
+        category='proof', engine='cvc',
+        text="The property's domain (all primitive type names) is finite and is enumerated completely: for every "
+             "name, ground obligations over tables read from the real sources on every run state that the backend's "
+             "types[] entry (clang's evaluation of the real initialiser) has the size, alignment, signedness and kind "
+             "a gcc probe program reports for that name, that the Python kind letter agrees, and that name -> opcode "
+             "index (cffi_opcode.PRIMITIVE_TO_INDEX) -> name (primitive_name[] in realize_c_type.c) is the identity, "
+             "with PRIM_* equal to the _CFFI_PRIM_* macros. search_standard_typename, the C parser's recogniser for "
+             "the *_t names, is verified by contract for all byte strings against that same index table.",
+        design_ref='DESIGN.md section 4 C06',
+        note=COMMON_NOTE + "Not under contract: new_primitive_type's search loop and FITS_LONG computation, the keyword "
+             "path of the C type parser (parse_complete). Integer ranges follow from size + signedness through the "
+             "converters of C03.",
+        technique="exhaustive enumeration of the finite name set as ground obligations over tables extracted from the "
+                  "real sources + contract-based deductive verification of search_standard_typename (cvc)",
+    ),
     'C18': dict(
         category='proof', engine='cvc',
         text="b_unpack under contract: the fast path chosen before the loop is, as a proved loop-entry fact, one that "
